@@ -34,6 +34,15 @@ def main(tier):
             r = histrun.run(PROP, b, 1 if quick else 3, sat, ORACLES, salt="sat%d%s" % (j, dom[0][:1].decode()))
             r.counters.inc("saturation_histories", r.evaluations)
             res.merge(r)
+    # a spawner that falls behind: its command pipe holds one page and it reads in pieces, so the daemon's writes are partial and
+    # its buffer fills up (seed c04-s8); long addresses make a command nearly a quarter of the pipe
+    slow = dict(base, slow_spawner=1.0, p_long_addr=0.9, long_lengths=[400, 700, 900, 900], conc=[5, 8, 10, 40], spawn=[120], min_rcpts=10, max_rcpts=18, max_msgs=2, dup_rcpt=0.0,
+                hold_reports=0.5, p_term_restart=0.0, max_quiescent=1500)
+    # (no TERM in mid-history here: a command the daemon wrote, or still holds in its buffer, when TERM arrives reaches a slow
+    # spawner afterwards, and the boundary rule "no command after TERM" presumes a spawner that has read everything)
+    rs = histrun.run(PROP, b, core.scaled(80 if quick else 1200), slow, ORACLES, salt="slow")
+    rs.counters.inc("slow_spawner_histories", rs.evaluations)
+    res.merge(rs)
     # crash sweep at call granularity for fixed scenarios
     prof = {"max_msgs": 3, "p_term_restart": 0.0, "max_rcpts": 4, "dup_rcpt": 0.3}
     for idx in histrun.pick_scenarios(PROP, b, "sw", prof, 2 if quick else 6):
